@@ -15,7 +15,7 @@ Requests (fields separated by `|`):
   dups groups separated by `;`, each `i:j i:j ..`.  Answer: `p:w p:w ..`.
 * `tensor|<w1>|<w2>`, `transform|<w>|<absdet>` — weights of `TensorPoints`, `TransformPoints`.
 * `gauss1|degree`           — number of points.
-* `table|dim|deg|denX|denW|x.. : w ; ...` — `insideSimplex exactToDegree ratCheck exactToDegree(deg+1)`.
+* `table|mode|dim|deg|denX|denW|x.. : w ; ...` — `insideSimplex exactToDegree ratCheck exactToDegree(deg+1)` (mode `int`: the last two are `-`).
 -/
 
 def parseNatList (n : Nat) (ts : List String) : Option (List Nat × List String) :=
@@ -163,7 +163,7 @@ def handle (line : String) : String :=
     match d.toNat? with
     | some d => toString (gauss1Npoints d)
     | none => "bad-request"
-  | ["table", dim, deg, dx, dw, pts] =>
+  | ["table", mode, dim, deg, dx, dw, pts] =>
     match dim.toNat?, deg.toNat?, dx.toNat?, dw.toNat?,
         (splitGroups pts).mapM (fun ent => match ent.splitOn ":" with
           | [x, w] => match parseInts x, w.trimAscii.toString.toInt? with
@@ -173,7 +173,8 @@ def handle (line : String) : String :=
     | some dim, some deg, some dx, some dw, some pts =>
       let t : ITable := (deg, dx, dw, pts)
       let t1 : ITable := (deg + 1, dx, dw, pts)
-      s!"{b01 (insideSimplex dim t)} {b01 (exactToDegree dim t)} {b01 ((monomials dim deg).all (ratMonomialOK dim t))} {b01 (exactToDegree dim t1)}"
+      if mode == "int" then s!"{b01 (insideSimplex dim t)} {b01 (exactToDegree dim t)} - -"
+      else s!"{b01 (insideSimplex dim t)} {b01 (exactToDegree dim t)} {b01 ((monomials dim deg).all (ratMonomialOK dim t))} {b01 (exactToDegree dim t1)}"
     | _, _, _, _, _ => "bad-request"
   | _ => "bad-request"
 
